@@ -9,6 +9,7 @@ import (
 
 	sdkmath "cosmossdk.io/math"
 	sdk "github.com/cosmos/cosmos-sdk/types"
+	"github.com/cosmos/cosmos-sdk/types/bech32"
 	"pgregory.net/rapid"
 
 	"github.com/circlefin/noble-cctp/x/cctp/types"
@@ -698,7 +699,11 @@ func (g *G) DepositOp(label string, validPct int) *Op {
 		}
 	}
 	var mr []byte
-	if valid {
+	if valid && g.Pct(label+"/mrlong", 4) {
+		// otherwise valid, but the recipient has more than 32 bytes (its first 32 are a fine recipient)
+		mr = append(g.NonZero32(label+"/mr", by), g.Bytes(label+"/mrx", Pick(g, label+"/mrxl", []int{1, 12, 32}))...)
+		mr[len(mr)-1] |= 1
+	} else if valid {
 		mr = g.NonZero32(label+"/mr", by)
 	} else {
 		mr = g.B32(label+"/mr", by)
@@ -791,7 +796,17 @@ func (g *G) AddrString(label string) string {
 		a := Acct(g.Acct(label + "/a"))
 		return a[:len(a)-1] + string("qpzry9x8"[g.Int(label+"/c", 0, 7)]) // (almost surely) bad checksum
 	case 3:
-		return ""
+		// correctly checksummed bech32 with the right prefix whose payload is no address (empty, > 255 bytes)
+		// or an unusual one (1 byte, 255 bytes); and the empty string
+		n := Pick(g, label+"/plen", []int{-1, 0, 256, 300, 1, 255})
+		if n < 0 {
+			return ""
+		}
+		s, err := bech32.ConvertAndEncode(sdk.GetConfig().GetBech32AccountAddrPrefix(), bytes.Repeat([]byte{0x5a}, n))
+		if err != nil {
+			return ""
+		}
+		return s
 	case 4:
 		return Acct(0) + "x"
 	case 5:
@@ -881,6 +896,11 @@ func (g *G) AdminOpOf(label, t string, by string) *Op {
 		amt := uint32(maxInt(0, n+g.Int(label+"/d", -n, 2)))
 		if g.Pct(label+"/hostile", 12) {
 			amt = Pick(g, label+"/hv", []uint32{1<<31 - 1, 1 << 31, 1<<31 + uint32(n), 1<<31 + uint32(n) + 1, 1<<32 - 1, 1 << 16, 256})
+			if g.Bool(label + "/wrap65") {
+				// 65*amount (the attestation length) wraps around 2^32 to a small value
+				k := uint64(g.Int(label+"/wk", 1, 64))
+				amt = uint32((k<<32+64)/65) + uint32(g.Int(label+"/wd", 0, n))
+			}
 		}
 		msg = &types.MsgUpdateSignatureThreshold{From: by, Amount: amt}
 	case "PauseBurningAndMinting":
@@ -1007,6 +1027,8 @@ type GenOpts struct {
 	MixedDenom   bool // in a fifth of the cases the minting denom has upper-case letters ("uUSDC")
 	ManyUsed     bool // an eighth of the cases start with 101..130 used nonces (more than one default query page)
 	ShortToken   bool // a third of the cases link (through genesis only) a pair whose remote token has 20 bytes
+	AbsentOpt    bool // in a sixth of the cases optional genesis fields (flags, body size, counter, threshold) are left out
+	CaseLimits   bool // in a quarter of the cases a second burn limit exists for the upper-cased denom, with another amount
 	Decoys       bool // in a quarter of the cases the attester registry also holds odd entries (empty, truncated, non-hex)
 }
 
@@ -1093,6 +1115,21 @@ func (g *G) drawGenesis(o GenOpts) *GenSpec {
 	}
 	if rapid.IntRange(0, 2).Draw(t, "haslimit") == 0 {
 		gs.Limits = append(gs.Limits, LimitSpec{Denom: strings.ToLower(denom), Amount: rapid.SampledFrom([]string{"1", "1000", "1000000", "18446744073709551616"}).Draw(t, "limit")})
+	}
+	if o.CaseLimits && rapid.IntRange(0, 3).Draw(t, "caselimits") == 0 {
+		if len(gs.Limits) == 0 {
+			gs.Limits = append(gs.Limits, LimitSpec{Denom: strings.ToLower(denom), Amount: "1000000"})
+		}
+		if up := strings.ToUpper(denom); up != gs.Limits[0].Denom {
+			gs.Limits = append(gs.Limits, LimitSpec{Denom: up, Amount: rapid.SampledFrom([]string{"5", "999", "2000000"}).Draw(t, "uplimit")})
+		}
+	}
+	if o.AbsentOpt && rapid.IntRange(0, 5).Draw(t, "absentopt") == 0 {
+		for _, f := range []string{"bm", "sr", "maxbody", "nextnonce", "threshold"} {
+			if rapid.Bool().Draw(t, "absent-"+f) {
+				gs.Absent = append(gs.Absent, f)
+			}
+		}
 	}
 	if o.UsedInGen {
 		for i := 0; i < rapid.IntRange(0, 3).Draw(t, "nused"); i++ {
